@@ -15,6 +15,7 @@ From Coq Require Import List Arith Bool.
 From SK Require Import Lib.Base Model.Objects Proofs.ObjectsProofs.
 Import ListNotations.
 From SK Require Import Check.ObjectsCheck Proofs.CheckerSoundness.
+From SK Require Import Model.Adapters Check.AdaptersCheck Proofs.AdaptersProofs.
 
 
 Theorem C10_wellformed_heaps : forall h : heap, reachable h -> heap_ok h.
@@ -89,6 +90,36 @@ Proof. exact @scorer_refs_never_change. Qed.
 Theorem C10_twin_checker_sound : forall (ops : list op) (outs : list out) (sd ss : list (nat * bool)), hist_ok (ops, outs, (sd, ss)) = true -> snd (run empty ops) = outs /\ summary (fst (run empty ops)) = (sd, ss).
 Proof. exact @hist_ok_sound. Qed.
 
+Theorem C10_adapter_heaps_wellformed : forall h : aheap, areachable h -> aheap_ok h.
+Proof. exact @areachable_aheap_ok. Qed.
+
+Theorem C10_adapter_fit_then_evaluate_is_fresh : forall (h : aheap) (a D : nat) (ad : adapter) (co : cost), aheap_ok h -> nth_error (adapters h) a = Some ad -> nth_error (costs h) (a_cost ad) = Some co -> aout_norm (snd (astep (fst (astep h (FitA a D))) (EvalA a))) = fresh_val (a_kind ad) (c_param co) D.
+Proof. exact @fit_then_eval_is_fresh_norm. Qed.
+
+Theorem C10_adapter_fresh_value : forall (k : akind) (p D : nat), snd (arun aempty [NewC p; NewA k 0; FitA 0 D; EvalA 0]) = [ANew 0; ANew 0; ANone; fresh_val k p D].
+Proof. exact @fresh_adapter_val. Qed.
+
+Theorem C10_adapter_reads_last_fit_of_shared_cost : forall (h : aheap) (a : nat) (ad : adapter) (co : cost) (own D' : nat), nth_error (adapters h) a = Some ad -> nth_error (costs h) (a_cost ad) = Some co -> a_fit ad = Some own -> snd (astep (fst (astep h (FitC (a_cost ad) D'))) (EvalA a)) = AVal (a_kind ad) (c_param co) D' (a_clone_param ad) (a_clone_fit ad) own.
+Proof. exact @eval_reads_last_cost_fit. Qed.
+
+Theorem C10_adapter_reads_last_fit_by_other_adapter : forall (h : aheap) (a b : nat) (ad bd : adapter) (co : cost) (own D' : nat), nth_error (adapters h) a = Some ad -> nth_error (adapters h) b = Some bd -> b <> a -> a_cost bd = a_cost ad -> nth_error (costs h) (a_cost ad) = Some co -> a_fit ad = Some own -> snd (astep (fst (astep h (FitA b D'))) (EvalA a)) = AVal (a_kind ad) (c_param co) D' (a_clone_param ad) (a_clone_fit ad) own.
+Proof. exact @eval_reads_last_adapter_fit. Qed.
+
+Theorem C10_adapter_unaffected_by_unrelated_operations : forall (ops : list aop) (h : aheap) (a : nat) (ad : adapter), aheap_ok h -> nth_error (adapters h) a = Some ad -> untouching (a_cost ad) a h ops = true -> snd (astep (fst (arun h ops)) (EvalA a)) = snd (astep h (EvalA a)).
+Proof. exact @eval_unaffected_run. Qed.
+
+Theorem C10_adapter_refuses_after_cost_reset : forall (h : aheap) (a : nat) (ad : adapter) (p : nat), nth_error (adapters h) a = Some ad -> a_cost ad < length (costs h) -> a_fit ad <> None -> snd (astep (fst (astep h (SetC (a_cost ad) p))) (EvalA a)) = ANotFitted.
+Proof. exact @set_behind_back_refuses. Qed.
+
+Theorem C10_adapter_refit_recovers : forall (h : aheap) (a : nat) (ad : adapter) (p D : nat), aheap_ok h -> nth_error (adapters h) a = Some ad -> aout_norm (snd (astep (fst (astep (fst (astep h (SetC (a_cost ad) p))) (FitA a D))) (EvalA a))) = fresh_val (a_kind ad) p D.
+Proof. exact @refit_recovers_norm. Qed.
+
+Theorem C10_adapter_unfitted_refuses : forall (h : aheap) (a : nat) (ad : adapter), nth_error (adapters h) a = Some ad -> a_cost ad < length (costs h) -> a_fit ad = None -> snd (astep h (EvalA a)) = ANotFitted.
+Proof. exact @unfitted_adapter_refuses. Qed.
+
+Theorem C10_adapter_twin_checker_sound : forall (ops : list aop) (outs : list aout) (sc : list (nat * bool)) (sa : list bool), ahist_ok (ops, outs, (sc, sa)) = true -> snd (arun aempty ops) = outs /\ asummary (fst (arun aempty ops)) = (sc, sa).
+Proof. exact @ahist_ok_sound. Qed.
+
 Print Assumptions C10_wellformed_heaps.
 Print Assumptions C10_observation_reads_only.
 Print Assumptions C10_unfitted_detector_refuses.
@@ -113,3 +144,13 @@ Print Assumptions C10_clone_leaves_original.
 Print Assumptions C10_hyperparameters_change_only_by_set_params.
 Print Assumptions C10_scorer_references_never_change.
 Print Assumptions C10_twin_checker_sound.
+Print Assumptions C10_adapter_heaps_wellformed.
+Print Assumptions C10_adapter_fit_then_evaluate_is_fresh.
+Print Assumptions C10_adapter_fresh_value.
+Print Assumptions C10_adapter_reads_last_fit_of_shared_cost.
+Print Assumptions C10_adapter_reads_last_fit_by_other_adapter.
+Print Assumptions C10_adapter_unaffected_by_unrelated_operations.
+Print Assumptions C10_adapter_refuses_after_cost_reset.
+Print Assumptions C10_adapter_refit_recovers.
+Print Assumptions C10_adapter_unfitted_refuses.
+Print Assumptions C10_adapter_twin_checker_sound.
